@@ -10,7 +10,7 @@
 (* unchanged up to the renaming of nodes.                                  *)
 (***************************************************************************)
 EXTENDS Drawing, Json
-CONSTANTS MaxItems, Syms, WireWeight, MinItems
+CONSTANTS MaxItems, Syms, WireWeight, MinItems, WithAC
 VARIABLES prog
 vars == <<prog>>
 
@@ -38,10 +38,12 @@ Check == (CompIdx(prog) # {} /\ Len(prog) >= MinItems) =>
    /\ Assert(SameUpToRenaming(prog, Rot, RotProg), "C13: a quarter turn of the drawing changed the netlist")
    /\ LET nl == Netlist(prog)
           ref == RefClass(prog)
-          net == DrawNet(prog, R0, Q(1, 1000))
-          s == IF ref \in Used(net) THEN SolveOpt(net, ref) ELSE <<>>
+          Sol(w) == LET net == DrawNet(prog, w, Q(1, 1000))
+                        s == IF ref \in Used(net) THEN SolveOpt(net, ref) ELSE <<>>
+                    IN IF s = <<>> THEN [ok |-> FALSE]
+                       ELSE [ok |-> TRUE, phi |-> [n \in Used(net) |-> Phi(net, ref, s, n)],
+                             u |-> [j \in DOMAIN net |-> U(net, ref, s, j)], i |-> [j \in DOMAIN net |-> IRep(net, ref, s, j)]]
       IN PrintT(<<"CASE", ToJson([prog |-> prog, netlist |-> nl, gnd |-> IF HasGnd(prog) THEN GndClass(prog) ELSE -1, ref |-> ref,
              labels |-> Labels(prog), classes |-> [p \in Pts |-> Rep(prog, p)],
-             dc |-> IF s = <<>> THEN [ok |-> FALSE] ELSE [ok |-> TRUE, phi |-> [n \in Used(net) |-> Phi(net, ref, s, n)],
-                                                          i |-> [j \in DOMAIN net |-> IRep(net, ref, s, j)]]])>>)
+             dc |-> Sol(R0), ac |-> IF WithAC THEN Sol(RI(2)) ELSE [ok |-> FALSE]])>>)
 =============================================================================
